@@ -97,6 +97,45 @@ CHECKS = {
         note='Relies on sys.addaudithook completeness (CPython 3.12 only); loads of the minifier\'s own modules are exempt; attribution by canary names.',
         technique='TLA+ (TLC) exhaustive check of the quoting rules against a literal lexer + trace validation of audit-event traces',
         design_ref='3.5, 5 (C12)'),
+    'C03': dict(
+        specs='PyScope.tla, Rename.tla, Trace_Rename.tla',
+        text='S = the name-resolution rules of Python rules over abstract scope trees (module/function/class/comprehension/lambda x load/store/global/nonlocal/param/'
+             'walrus); M = the mapper, binder, resolver, pin rules and name assigner with any processing order and rename/decline choice. TLC '
+             'checks that every renamed program keeps the binding partition, home scopes, class fallbacks and compilability (all option combinations; '
+             'thorough adds two names). Every enumerated program (quick ~15 600, thorough ~300 000) is concretised with unique tags, minified by the real '
+             'code under three option sets, the spelling of every occurrence is read back, TLC re-evaluates the rules of Python on input and output, and '
+             'the compiler and a run of both programs are cross-checked.',
+        note='Bounds: module + 2 scopes (3 thorough) and 1-2 names; helper names of generated programs are preserved; dynamic run on CPython 3.12 only.',
+        technique='TLA+ (TLC) model checking of the renamer against the scoping rules of Python + replay of every enumerated program into the real renamer',
+        design_ref='3.1, 3.2, 5 (C03)'),
+    'C04': dict(
+        specs='PyScope.tla, Rename.tla, Trace_Rename.tla, Trace_Interface.tla',
+        text='InterfaceKept checked by TLC on the renamer model for all programs and option combinations in bounds; the real renamer is replayed on every '
+             'enumerated program under all four (rename_locals, rename_globals) pairs (class attributes, keyword-callable parameters, never-bound names, '
+             'module-level names); real modules are projected to interface categories (attribute, keyword, import, class-body, parameter, dunder, unbound, '
+             'module-level names) before/after under renaming+hoisting and judged by TLC as (multi)set equalities.',
+        note='Documented freedom excluded: first parameter of undecorated/classmethod methods, *args/**kwargs, positional-only. Static projection runs under '
+             'CPython 3.11 (symtable without PEP 709 inlining).',
+        technique='TLA+ (TLC) model checking of the renamer + trace validation of observed interface projections',
+        design_ref='3.2, 5 (C04)'),
+    'C09': dict(
+        specs='Rename.tla, Pipeline.tla, PipelineS.tla, Trace_Rename.tla, Trace_Taint.tla',
+        text='Frozen (renamer model) and the gating of name-introducing stages (pipeline model) checked by TLC; the real code is run on every enumerated '
+             'scope program with a trigger and on 7 triggers + 4 look-alikes x 15 syntactic positions x naming-option combinations x preserve lists, star '
+             'imports and the 2.7 exec statement: identifier multiset, stage events and naming flags (outside seams), and a run that enumerates namespaces '
+             'and looks names up by string, all judged by TLC.',
+        note='Look-alikes are unconstrained; identifier multiset covers names, args, def/class names, global/nonlocal, import and except names.',
+        technique='TLA+ (TLC) model checking + trace validation of stage events and observed identifier sets',
+        design_ref='3.2, 3.9, 5 (C09)'),
+    'C10': dict(
+        specs='Rename.tla, Trace_Rename.tla, Trace_Preserve.tla',
+        text='Preserved checked by TLC on the renamer model under every option combination; the real renamer is replayed on every enumerated program with '
+             'the name listed for locals / globals / both; a generated module is minified under 5 __all__ forms x option pairs x local and global name lists '
+             '(locally bound, global, parameter, builtin, absent) given as list or single string, and through awslambda(): occurrence counts of each listed '
+             'name, identity of shape with the un-preserved output, and a run of both programs, judged by TLC.',
+        note='Tuples are outside the documented argument type. CLI list spellings are judged in C13.',
+        technique='TLA+ (TLC) model checking + trace validation of observed renamings',
+        design_ref='3.2, 5 (C10)'),
     'C07': dict(
         specs='Fold.tla, Trace_Fold.tla',
         text='Decision structure of the folder (M) against the numeric tower and the property\'s rule (S: result type or exception per operator x '
